@@ -7,9 +7,11 @@ CONSTANTS
   GenBias = FALSE
   FixRenew = FALSE
   PlanIdx = {"p1"}
-  Buyers = {"c"}
   Durs = {1}
   WithRelay = FALSE
+  Consumers = {"c1"}
+  ThirdParty = {}
+  WithDrain = FALSE
   PriceVar = {0}
 INIT Init
 NEXT Next
